@@ -174,25 +174,32 @@ C19_NeverEscapes   == NeverEscapes(Obs)
 (* while running: only zero codes so far, and as many as commands passed *)
 C19_Progress == (op = "run" /\ status = "PENDING") => Len(rcs) = pc - 1 /\ \A i \in DOMAIN rcs : rcs[i] = 0
 
-(* clauses about directories, over the names, the set A of accepted indices and the file system F *)
-Dirs(ns, A) == {DirOf(ns[i]) : i \in A}
-DirBelowRoot(ns, A) == \A i \in A : DirOf(ns[i]) # Outside /\ Len(DirOf(ns[i])) >= 1
-DirInjective(ns, A) == \A i, j \in A : i # j => DirOf(ns[i]) # DirOf(ns[j])
-(* a task's directory is neither another task's capture file nor does another task's file live in it
-   other than below that task's own directory *)
-DirNotCapture(ns, A) == \A i, j \in A : i # j =>
-                           /\ DirOf(ns[i]) \notin {CapOut(ns[j]), CapErr(ns[j])}
-                           /\ CapOut(ns[i]) \notin {CapOut(ns[j]), CapErr(ns[j])}
-                           /\ CapErr(ns[i]) \notin {CapOut(ns[j]), CapErr(ns[j])}
-(* one owner and one kind per path, except shared parent directories *)
+(* clauses about directories, over D = the directory (path below the root) of every accepted task *)
+DirBelowRoot(D) == \A i \in DOMAIN D : D[i] # Outside /\ Len(D[i]) >= 1
+DirInjective(D) == \A i, j \in DOMAIN D : i # j => D[i] # D[j]
+(* a task's directory or capture file is no other task's capture file *)
+DirNotCapture(D) == \A i, j \in DOMAIN D : i # j =>
+                       LET ci == {Append(D[i], <<"stdout">>), Append(D[i], <<"stderr">>)}
+                           cj == {Append(D[j], <<"stdout">>), Append(D[j], <<"stderr">>)} IN
+                       D[i] \notin cj /\ ci \cap cj = {}
+(* one kind per path, one owner per file *)
 FsConsistent(F) == \A e1, e2 \in F : e1.path = e2.path => (e1.kind = e2.kind /\ (e1.kind = "file" => e1.owner = e2.owner))
-InvalidRejected(ns, A) == \A i \in DOMAIN ns : (i < k) => ((i \in A) <=> Valid(ns[i]))
-RejectedCreateNothing(ns, A, F) == \A e \in F : e.owner \in A
+(* exactly the valid names are accepted (ns = the names handled so far) *)
+InvalidRejected(ns, A) == A = {i \in DOMAIN ns : Valid(ns[i])}
+(* the file system holds exactly what the accepted tasks create: a rejected task created nothing *)
+RECURSIVE FsOf(_, _)
+FsOf(ns, n) == IF n = 0 THEN {} ELSE FsOf(ns, n - 1) \cup (IF Valid(ns[n]) THEN Created(n, ns[n]) ELSE {})
+Files(F) == {[path |-> e.path, owner |-> e.owner] : e \in {x \in F : x.kind = "file"}}
+DirPaths(F) == {e.path : e \in {x \in F : x.kind = "dir"}}
+SameFs(F, G) == Files(F) = Files(G) /\ DirPaths(F) = DirPaths(G)
 
-C19_DirBelowRoot  == op = "names" => DirBelowRoot(names, accepted)
-C19_DirInjective  == op = "names" => DirInjective(names, accepted)
-C19_DirNotCapture == op = "names" => DirNotCapture(names, accepted) /\ FsConsistent(fs)
-C19_Rejected      == op = "names" => InvalidRejected(names, accepted) /\ RejectedCreateNothing(names, accepted, fs)
+DirsNow == [i \in accepted |-> DirOf(names[i])]
+C19_DirBelowRoot  == op = "names" => DirBelowRoot(DirsNow)
+C19_DirInjective  == op = "names" => DirInjective(DirsNow)
+C19_DirNotCapture == op = "names" => DirNotCapture(DirsNow) /\ FsConsistent(fs)
+C19_Rejected      == op = "names" => /\ InvalidRejected(SubSeq(names, 1, k - 1), accepted)
+                                     /\ SameFs(fs, FsOf(names, k - 1))
+                                     /\ \A e \in fs : e.owner \in accepted
 
 -----------------------------------------------------------------------------
 (* witnesses: TLC must find each violated *)
